@@ -170,6 +170,11 @@ pub fn c09(ctx: &GCtx) -> i32 {
                     Ok(())
                 }
                 // keep_unknown_fields builds: 'remaining - 2' of the known finding arg-type-tail-swallow
+                // ... and a truncated message whose argument-type member swallows the tail decodes "successfully"
+                Err(fl) if unit.ends_with("_k") && c.sched == Sched::Sync && fl.key.starts_with("prefix-accepted") && ctx.findings.is_open("C09", "arg-type-tail-swallow") && doc.triggers_tail_swallow(mt, &c.value) => {
+                    swallow_hits.set(swallow_hits.get() + 1);
+                    Ok(())
+                }
                 Err(fl) if unit.ends_with("_k") && c.sched == Sched::Sync && fl.key.contains("attempt-to-subtract-with-overflow") && ctx.findings.is_open("C09", "arg-type-tail-swallow") => {
                     swallow_hits.set(swallow_hits.get() + 1);
                     Ok(())
@@ -218,6 +223,14 @@ pub fn c09(ctx: &GCtx) -> i32 {
                 for l in &cases {
                     r.case(fp(l), true, || json!({"nesting chain": l}));
                     r.class("generated: nesting chain through a recursive struct");
+                }
+            }
+            // a panic (as opposed to running out of stack) at some nesting depth
+            if let Some(pl) = so.lines().find(|l| l.starts_with("SIDE panic")) {
+                let before = so.lines().take_while(|l| !l.starts_with("SIDE panic")).filter(|l| l.starts_with("SIDE case")).last().unwrap_or("(none)").to_string();
+                let fl = Fail::new(&format!("panic:deep-chain:{}", vrt::total::panic_signature(pl)), format!("decoding a nesting chain panicked: {} [{}]", pl, before));
+                if seen.insert(fl.key.clone()) && !ctx.findings.is_open("C09", &fl.key) {
+                    ctx.report(&rec, "generated-deep-chain", &json!({"chain": before}), &fl);
                 }
             }
             if !o.status.success() {
@@ -293,7 +306,9 @@ pub fn c09_deep_child(ctx: &GCtx) -> i32 {
                     let h = std::thread::Builder::new().stack_size(8 << 20).spawn(move || {
                         let mode = if asynchronous { Mode::Async(vec![], false) } else { Mode::Sync };
                         let req = RtReq { pk, mode, bytes: &bytes, sentinel: 0, linked_zc: false, poll_budget: 64 * bytes.len() + 1024 };
-                        let _ = catch(|| (e.ops.decode_only)(&req));
+                        if let Err(p) = catch(|| (e.ops.decode_only)(&req)) {
+                            println!("SIDE panic {}", vcore::evidence::truncate(&p, 300));
+                        }
                     });
                     let _ = h.map(|h| h.join());
                 }
@@ -555,6 +570,10 @@ fn has_heap_list(v: &TVal) -> bool {
     r
 }
 
+thread_local! {
+    static LEAK_ACC: std::cell::RefCell<vcore::evidence::LeakAcc> = std::cell::RefCell::new(vcore::evidence::LeakAcc::default());
+}
+
 fn c19_case(doc: &SDoc, mt: &MsgType, e: &Entry, c: &FaultCase) -> PResult {
     let f = faulted(doc, mt, c);
     let kind = shape_kind(&mt.shape);
@@ -582,6 +601,11 @@ fn c19_case(doc: &SDoc, mt: &MsgType, e: &Entry, c: &FaultCase) -> PResult {
     }
     if !failed {
         return Ok(());
+    }
+    // memory kept once per distinct input (not per repetition) is judged over the whole run;
+    // inputs of the known list-elem-leak class really do leak and stay out of the sum
+    if !(c.sched == Sched::Sync && (has_heap_list(&f.wire) || doc.shape_has_heap_list(&mt.shape))) {
+        LEAK_ACC.with(|a| a.borrow_mut().add(growth[0], &format!("{} {} [{}]", mt.rust_name, tag, f.described)));
     }
     let leaked = growth[1] > 0 && growth[1] == growth[2];
     // (an empty input is a static buffer, which never reports itself as unique)
@@ -675,6 +699,14 @@ pub fn c19(ctx: &GCtx) -> i32 {
         if let Some((case, fl)) = res {
             seen.insert(fl.key.clone());
             ctx.report(&rec, "leak", &case, &fl);
+        }
+    }
+    // memory kept once per distinct rejected input (see LeakAcc); judged before the side stream
+    // of the known finding runs, which leaks on purpose
+    if let Some(msg) = LEAK_ACC.with(|a| a.borrow().verdict()) {
+        let fl = Fail::new("leak-accumulating", msg);
+        if !ctx.findings.is_open("C19", &fl.key) {
+            ctx.report(&rec, "leak", &json!({"accumulated": true}), &fl);
         }
     }
     // side stream for the known finding: count how often the class leaks
